@@ -46,7 +46,7 @@ VIA_RDFLIB = ["xml", "trix", "json-ld", "hext"]
 LINE_FORMATS = {"nt", "nquads", "hext"}
 EXT = {"nt": "nt", "nquads": "nq", "turtle": "ttl", "trig": "trig", "xml": "rdf", "trix": "trix", "json-ld": "jsonld", "hext": "hext"}
 CTYPE = {"nt": "application/n-triples", "nquads": "application/n-quads", "turtle": "text/turtle", "trig": "application/trig", "xml": "application/rdf+xml", "trix": "application/trix", "json-ld": "application/ld+json"}
-MODES = ["data-str", "data-bytes", "source-bytes", "file-bytesio", "source-stringio", "textwrap-raw", "file-raw", "source-raw", "file-text", "source-text", "sis-str", "sis-bytes", "fis-raw", "path-str", "path-pathlib", "loc-file", "loc-http", "loc-http-redirect", "path-guess", "http-guess", "byteswrapper-text", "byteswrapper-str", "data-noformat-publicid", "path-relative-late", "path-relative-chdir"]
+MODES = ["data-str", "data-bytes", "source-bytes", "file-bytesio", "source-stringio", "textwrap-raw", "file-raw", "source-raw", "file-text", "source-text", "sis-str", "sis-bytes", "fis-raw", "path-str", "path-pathlib", "loc-file", "loc-http", "loc-http-redirect", "path-guess", "http-guess", "byteswrapper-text", "byteswrapper-str", "data-noformat-publicid", "path-relative-late", "path-relative-chdir", "file-bytesio-nameless", "file-stringio", "file-textwrapper-nameless", "textfile-utf16"]
 BUDGET = 4000000
 STRINGS = ["v", "", "a b", "café", "€ uro", "\U0001F600 smile", 'q"uote', "back\\slash", "line\nbreak", "tab\there", "cr\rhere", "crlf\r\nend", "x' y", "é" * 3, "end\\", "no\ufeffbreak", "\ufeffbom-first"]
 
@@ -73,8 +73,8 @@ def generate(seed, tier):
     g = Stream(seed, "gen")
     fmt = g.choice(OWN * 3 + VIA_RDFLIB)
     quad = fmt in ("nquads", "trig", "trix", "json-ld", "hext") and g.chance(0.7)
-    subs = [u("s"), u("café/x"), ["b", "b1"], ["b", "b2"], u("ns#frag")]
-    preds = [u("p"), u("ns#q"), ["u", writers.RDF + "type"], u("p-2")]
+    subs = [u("s"), u("café/x"), ["b", "b1"], ["b", "b2"], u("ns#frag"), u("sub/s")]
+    preds = [u("p"), u("ns#q"), ["u", writers.RDF + "type"], u("p-2"), u("sub/p")]
     gnames = [u("g1"), ["b", "gb"]]
     quads = []
     for _ in range(g.randint(1, 12 if tier == "quick" else 24)):
@@ -210,6 +210,8 @@ def execute(trace, ctx):
             if (b"\\u" in window or b"\\" == window[-1:]) if raw else ("\\u" in window or window[-1:] == "\\"):
                 ctx.probe("chunk-inside-escape")
 
+    to_close = []
+
     def build(op, fault):
         """returns (kwargs for parse, stream or None)"""
         mode = op["mode"]
@@ -230,6 +232,28 @@ def execute(trace, ctx):
             kw = {"file": b}
         elif mode == "source-stringio":
             kw = {"source": io.StringIO(doc)}
+        elif mode == "file-bytesio-nameless":
+            kw = {"file": io.BytesIO(data)}  # a file object need not have a name
+        elif mode == "file-stringio":
+            kw = {"file": io.StringIO(doc)}
+        elif mode == "file-textwrapper-nameless":
+            kw = {"file": io.TextIOWrapper(io.BytesIO(data), encoding="utf-8", newline="")}
+        elif mode == "textfile-utf16":
+            # a real file opened in text mode whose bytes are not UTF-8: the characters are the document
+            pth = os.path.join(tmpdir, f"utf16-{op['uid']}." + ext)
+            enc = "utf-16"
+            try:
+                if op["uid"] % 2 and doc.encode("latin-1") != data:
+                    enc = "latin-1"  # (possible when no character is beyond U+00FF; the bytes then are not even valid UTF-8)
+                    ctx.probe("text-file-latin-1")
+            except UnicodeEncodeError:
+                pass
+            with open(pth, "w", encoding=enc, newline="") as fh:
+                fh.write(doc)
+            opened = open(pth, encoding=enc, newline="")
+            to_close.append(opened)
+            kw = {"file": opened}
+            ctx.probe("text-file-not-utf8")
         elif mode == "textwrap-raw":
             stream = SimRaw(data, chunks, fault, name="doc." + ext, stats=ctx.faults)
             kw = {"file": io.TextIOWrapper(io.BufferedReader(stream, buffer_size=max(chunks[0], 16)), encoding="utf-8", newline="")}
@@ -446,6 +470,8 @@ def execute(trace, ctx):
         import shutil
 
         os.chdir("/")
+        for fh in to_close:
+            fh.close()
         shutil.rmtree(tmpdir, ignore_errors=True)
 
 
